@@ -63,7 +63,7 @@ func c13Schedules(s Src, base sim.Config, n int, nranges int, fresh bool) []Run 
 	for i := 0; i < nranges; i++ {
 		rev.Orders = append(rev.Orders, -1)
 	}
-	rev.ClockStartMs = 32_503_680_000_000
+	rev.ClockStartMs = 8_835_868_800_000
 	rev.Pid = 7
 	rev.RandSeed = 99
 	rev.Env = map[string]string{"HOME": "/x", "TZ": "Asia/Dhaka"}
